@@ -19,9 +19,59 @@ def judge(s, node, cname, result, error, nb=None):
         return []  # malformed results are judged by C07
     vd = equiv.same_function(s, rs)
     if vd.same:
+        stress = stress_evaluate(s, rs, result)
+        if stress:
+            return [(f"{cname}|value-changed-under-evaluate|{nb or RW.neighbourhood(node)}", stress)]
         return [("", vd)]
     core = f"{cname}|value-changed|{nb or RW.neighbourhood(node)}"
     return [(core, f"{SG.show(s)}  ->  {SG.show(rs)}  differ at {vd.witness}")]
+
+
+def _exact_class(z):
+    """integer constants (Python or numpy), + - * negation and small non-negative integer powers only"""
+    if z is None:
+        return True
+    if z[0] == "c":
+        return z[1][0] in ("i", "ni")
+    if z[0] == "v":
+        return True
+    if z[0] in ("+", "-", "*", "neg"):
+        return _exact_class(z[2]) and _exact_class(z[3])
+    if z[0] == "^":
+        e = z[3]
+        return _exact_class(z[2]) and e is not None and e[0] == "c" and e[1][0] in ("i", "ni") and 0 <= int(e[1][1]) <= 6
+    return False
+
+
+def stress_evaluate(s, rs, result):
+    """The rewritten tree must also EVALUATE (with the library's own evaluator) to the same number: for trees
+    in the exact integer class the library promises exact results, so the result tree is evaluated at
+    assignments around 2**62 and compared with the exact value of the tree before the rewrite.  Catches
+    constants of a wrapping numeric type that a rule leaves in its result."""
+    from fractions import Fraction
+
+    from ..oracle import exact
+
+    if not (_exact_class(s) and _exact_class(rs)):
+        return None
+    names = sorted(SG.variables(s) | SG.variables(rs))
+    if not names:
+        return None
+    env = {v: 2 ** 62 + 1 + 2 * i for i, v in enumerate(names)}
+    want, st = exact.evaluate(s, {k: Fraction(v) for k, v in env.items()})
+    if want in (exact.UNDEF, exact.SKIP):
+        return None
+    try:
+        got = RW.get_root(result).evaluate(dict(env))
+    except Exception as e:  # noqa
+        return f"{SG.show(s)} -> {SG.show(rs)}: evaluating the result at {env} raises {type(e).__name__}: {e}"
+    try:
+        ok = bool(got == want.numerator) and want.denominator == 1
+    except Exception:  # noqa
+        ok = False
+    if not ok:
+        return f"{SG.show(s)} -> {SG.show(rs)}: at {env} the result evaluates to {got!r} ({type(got).__name__}), exact value {want}"
+    return None
 
 
 class V(steps.Visitor):
